@@ -121,7 +121,15 @@ func opTerm(level string, o Op) string {
 	sort.Ints(keys)
 	var touts []string
 	for _, k := range keys {
-		touts = append(touts, gen.Pair(strconv.Itoa(k), toutTerm[o.TaskOut[strconv.Itoa(k)]]))
+		v := o.TaskOut[strconv.Itoa(k)]
+		tt, known := toutTerm[v]
+		if code, vol, _, fin, ok := parseTermX(v); ok {
+			tt, known = fmt.Sprintf("(TTermX %s %s %d)", gen.Z(int64(code)), gen.Bool(vol), fin), true
+		}
+		if !known {
+			tt = "TOk"
+		}
+		touts = append(touts, gen.Pair(strconv.Itoa(k), tt))
 	}
 	return fmt.Sprintf("(mkOp %s %s %s %s [])", kind, body, nlist(o.Fail), gen.List(touts))
 }
